@@ -742,9 +742,51 @@ def unfq(h):
     return None if h == "~" else ("" if h in ("_", "-") else bytes.fromhex(h).decode("utf-8", errors="replace"))
 
 
-def fs_line(masked, own, cc, cands, ops):
+def fs_line(masked, own, cc, cands, ops, anon=False):
     cs = ";".join("%d.%s.%d.%s" % (i, k, st, enc_list(l)) for (i, k, st, l) in cands) or "-"
-    return "FS %s %s %s %s %s" % (enc_list(masked), enc_list(own), cc, cs, "/".join(ops) or "-")
+    return "FS %s %s %s %s %s%s" % (enc_list(masked), enc_list(own), cc, cs, "/".join(ops) or "-", " anon" if anon else "")
+
+
+# auth levels (server/auth/auth.go): sess.authLvl is an int; 'ordinary' = everything that is not LevelRoot
+F_LEVEL_NAMES = {0: "LevelNone", 10: "LevelAnon", 20: "LevelAuth", 30: "LevelRoot"}
+F_LEVELS_JUNK = [-10, -1, 1, 5, 15, 19, 21, 25, 29, 31, 40, 100, 1000]
+F_ROOT = 30
+
+
+def f_sref(ref):
+    """session reference of a request -> (id, level): <id> or <id>l<level>; a bare id means 1, 2 -> auth, 3 -> root"""
+    if "l" in ref:
+        a, b = ref.split("l", 1)
+        return int(a), int(b)
+    return int(ref), (30 if int(ref) == 3 else 20)
+
+
+def f_level_name(lvl):
+    return "%s (%d)" % (F_LEVEL_NAMES[lvl], lvl) if lvl in F_LEVEL_NAMES else "%d (not a defined level)" % lvl
+
+
+def f_rand_level(rng):
+    r = rng.random()
+    if r < 0.3:
+        return 10
+    if r < 0.5:
+        return 0
+    if r < 0.7:
+        return 20
+    if r < 0.8:
+        return 30
+    return rng.choice(F_LEVELS_JUNK)
+
+
+def f_rand_sref(rng, levels):
+    """a session of the scenario: ids 1..3 keep their classic meaning, 4.. carry an explicit level (fixed per id
+    within the scenario by [levels], now and then re-assigned: a session may log in again)"""
+    i = rng.choice([1, 1, 2, 3, 4, 4, 5, 5, 6])
+    if i <= 3 and rng.random() < 0.7:
+        return str(i)
+    if i not in levels or rng.random() < 0.08:
+        levels[i] = f_rand_level(rng)
+    return "%dl%d" % (i, levels[i])
 
 
 def f_cands(rng, own, extra=()):
@@ -773,30 +815,69 @@ def gen_search_scenario(rng):
     cc = rng.choice(["US", "US", "US", "DE", "-"])
     cands = f_cands(rng, own, extra=own)
     ops = []
+    levels = {}
+    lv = rng.random() < 0.5           # half of the scenarios: sessions of every auth level
+    anon = lv and rng.random() < 0.3  # ... of which some with the level-10 sessions logged in by the real code
     for _ in range(rng.randrange(2, 6)):
-        s = rng.choice([1, 1, 1, 2, 3])
+        s = f_rand_sref(rng, levels) if lv else str(rng.choice([1, 1, 1, 2, 3]))
         q = f_query(rng, masked, own)
         k = rng.random()
         if k < 0.45:
-            ops.append("d.%d.%s.~" % (s, fq(q)))
+            ops.append("d.%s.%s.~" % (s, fq(q)))
         elif k < 0.85:
-            ops.append("d.%d.~.%s" % (s, fq(q)))
+            ops.append("d.%s.~.%s" % (s, fq(q)))
         else:
-            ops.append("d.%d.%s.%s" % (s, fq(f_query(rng, masked, own)), fq(q)))
-        ops.append("g.%d" % s)
+            ops.append("d.%s.%s.%s" % (s, fq(f_query(rng, masked, own)), fq(q)))
+        ops.append("g.%s" % s)
         r = rng.random()
         if r < 0.3:
-            ops.append("g.%d" % rng.choice([1, 2, 3]))
+            ops.append("g.%s" % (f_rand_sref(rng, levels) if lv else str(rng.choice([1, 2, 3]))))
         elif r < 0.4:
             ops.append("t")
-            ops.append("g.%d" % s)
+            ops.append("g.%s" % s)
         elif r < 0.47:
             ops.append("u")
-            ops.append("g.%d" % s)
+            ops.append("g.%s" % s)
         elif r < 0.52:
-            ops.append("d.%d.%s.~" % (s, fq("␡")))
-            ops.append("g.%d" % s)
-    return fs_line(masked, own, cc, cands, ops)
+            ops.append("d.%s.%s.~" % (s, fq("␡")))
+            ops.append("g.%s" % s)
+    return fs_line(masked, own, cc, cands, ops, anon)
+
+
+def fs_level_cases_c19(rng, quick):
+    """'ordinary users are never shown suspended or deleted accounts and topics', for EVERY auth level: a query that
+    matches an active, a suspended and a soft-deleted account and an active, a suspended and a soft-deleted topic,
+    stored as the public or as the private query, searched from a session of each level (none, anon, auth, root and
+    numbers that are no level), alone, next to a root session, after a change of level of the same session, after
+    unload; once more with the level-10 sessions logged in by the real anonymous account creation / token login"""
+    cases = []
+    masked, own = ["org"], ["flowers", "org:acme"]
+    cands = [(1, "u", 0, ["travel", "flowers"]), (2, "u", 1, ["travel", "flowers"]), (3, "u", 2, ["travel", "flowers"]),
+             (4, "t", 0, ["travel", "flowers"]), (5, "t", 1, ["travel", "flowers"]), (6, "t", 2, ["travel", "flowers"]),
+             (7, "u", 1, ["basic:alice"]), (8, "t", 2, ["basic:alice", "tel:+16502530000"]), (9, "u", 0, ["chess"])]
+    queries = ["travel", "flowers", "travel,chess", "travel flowers", "alice", "6502530000,travel"]
+    levels = [0, 10, 20, 30] + (rng.sample(F_LEVELS_JUNK, 4) if quick else F_LEVELS_JUNK)
+    for lvl in levels:
+        for pub in (0, 1):
+            q = rng.choice(queries) if quick else None
+            for q in ([q] if quick else queries):
+                s = "4l%d" % lvl
+                d = "d.%s.%s.~" % (s, fq(q)) if pub else "d.%s.~.%s" % (s, fq(q))
+                other = rng.choice([x for x in levels if x != lvl])
+                if pub:
+                    # the public query is per session: the root session and a session of another level store it too
+                    ops = [d, "g.%s" % s, "d.3.%s.~" % fq(q), "g.3", "d.5l%d.%s.~" % (other, fq(q)), "g.5l%d" % other,
+                           "g.4l%d" % other, "g.%s" % s, "u", "g.%s" % s]
+                else:
+                    ops = [d, "g.%s" % s, "g.3", "g.5l%d" % other, "g.4l%d" % other, "g.%s" % s, "u", "g.%s" % s]
+                cases.append(fs_line(masked, own, rng.choice(["US", "US", "-"]), cands, ops))
+    # the level-10 sessions through the real code: {acc user=new scheme=anonymous login=true}, {login scheme=token}
+    for q in (queries[:3] if quick else queries):
+        for pub in (0, 1):
+            d = "d.1l10.%s.~" % fq(q) if pub else "d.1l10.~.%s" % fq(q)
+            ops = [d, "g.1l10", "g.2l10", "g.3", "g.4l0", "g.2l30", "g.2l10", "t", "g.1l10", "u", "g.2l10"]
+            cases.append(fs_line(masked, own, "US", cands, ops, anon=True))
+    return cases
 
 
 def fs_corner_cases(rng, quick):
@@ -946,12 +1027,26 @@ def fs_parse(case, out):
     return masked, own, cc, cands, steps
 
 
+def f_reply_level(reply, lvl):
+    """(reply, level the session really holds): the driver appends ~lvl<n> when the level which the real login code
+    gave the session is not the one the request names"""
+    if "~lvl" in reply:
+        reply, n = reply.split("~lvl", 1)
+        try:
+            lvl = int(n)
+        except ValueError:
+            pass
+    return reply, lvl
+
+
 def f_show_op(op):
     f = op.split(".")
     if f[0] == "d":
-        return "{set desc public=%r private=%r} from session %s%s" % (unfq(f[2]), unfq(f[3]), f[1], " (root)" if f[1] == "3" else "")
+        i, lvl = f_sref(f[1])
+        return "{set desc public=%r private=%r} from session %d (auth level %s)" % (unfq(f[2]), unfq(f[3]), i, f_level_name(lvl))
     if f[0] == "g":
-        return "{get what=sub} from session %s%s" % (f[1], " (root)" if f[1] == "3" else "")
+        i, lvl = f_sref(f[1])
+        return "{get what=sub} from session %d (auth level %s)" % (i, f_level_name(lvl))
     return {"u": "unload the fnd topic", "t": "Topic.tags := the user's stored tags"}[f[0]]
 
 
@@ -974,7 +1069,7 @@ def fs_monitor(case, out, table=None):
     res = []
     for law, c, txt in fails:
         n = int(txt.split()[1])          # "request <n> of the scenario: ..."
-        short = " ".join(w[:5] + ["/".join(w[5].split("/")[:n])])
+        short = " ".join(w[:5] + ["/".join(w[5].split("/")[:n])] + w[6:])
         table.setdefault(short, "FS " + "/".join(out[3:].split("/")[:n]))
         res.append((law, short, txt))
     return res
@@ -1006,13 +1101,15 @@ def fs_monitor_full(case, out):
             if fails:
                 break
             continue
-        s = int(f[1])
-        root = s == 3
+        s, lvl = f_sref(f[1])
+        reply, lvl = f_reply_level(reply, lvl)
+        # 'ordinary users': every session whose level is not LevelRoot - none, anon, auth, and numbers that are no level
+        root = lvl == F_ROOT
         if not root:
             for (m, req, opt, active) in calls:
                 if not active:
-                    bad("nonroot-search-active-only", "store.%s called with activeOnly=false for a session that is not root"
-                        % ("FindUsers" if m == "U" else "FindTopics"))
+                    bad("nonroot-search-active-only", "store.%s called with activeOnly=false for a session of auth level %s, which is not root"
+                        % ("FindUsers" if m == "U" else "FindTopics", f_level_name(lvl)))
                     break
         found = []
         if reply.startswith("m"):
@@ -1020,8 +1117,9 @@ def fs_monitor_full(case, out):
         if not root:
             for x in found:
                 if x.isdigit() and int(x) in cands and cands[int(x)][1] != 0:
-                    bad("nonroot-never-shown-inactive", "%s %s (%s, tags %r) is shown to a session that is not root"
-                        % ("account" if cands[int(x)][0] == "u" else "topic", x, "suspended" if cands[int(x)][1] == 1 else "deleted", cands[int(x)][2]))
+                    bad("nonroot-never-shown-inactive", "%s %s (%s, tags %r) is shown to a session of auth level %s, which is not root"
+                        % ("account" if cands[int(x)][0] == "u" else "topic", x, "suspended" if cands[int(x)][1] == 1 else "deleted", cands[int(x)][2],
+                           f_level_name(lvl)))
                     break
         # the query that is active for this session, as the topic holds it (printed by the driver)
         q, wl = (pubs[s - 1], True) if pubs[s - 1] is not None else (priv, False)
@@ -1105,6 +1203,7 @@ def gen_search_cases(ctx):
             cases.append("QR US@%s %d %s" % (cfg, rng.randrange(2), hx(a + rng.choice([" ", ","]) + b)))
     # whole searches on a real fnd topic
     cases += fs_corner_cases(rng, quick)
+    cases += fs_level_cases_c19(rng, quick)
     for _ in range(FS_QUICK if quick else FS_THOROUGH):
         cases.append(gen_search_scenario(rng))
     return cases
@@ -1346,17 +1445,20 @@ def neighbours(ctx, case):
     elif w[0] == "FS":
         ops = [] if w[5] == "-" else w[5].split("/")
         for i in range(len(ops)):
-            res.append(" ".join(w[:5] + ["/".join(ops[:i] + ops[i + 1:]) or "-"]))
+            res.append(" ".join(w[:5] + ["/".join(ops[:i] + ops[i + 1:]) or "-"] + w[6:]))
         for i in range(1, len(ops)):
-            res.append(" ".join(w[:5] + ["/".join(ops[:i])]))
-        # the same queries through the other field / from the other session
+            res.append(" ".join(w[:5] + ["/".join(ops[:i])] + w[6:]))
+        # the same queries through the other field / from the other session / from a session of another auth level
         for i, op in enumerate(ops):
             f = op.split(".")
             if f[0] == "d":
                 sw = "d.%s.%s.%s" % (f[1], f[3], f[2])
-                res.append(" ".join(w[:5] + ["/".join(ops[:i] + [sw] + ops[i + 1:])]))
+                res.append(" ".join(w[:5] + ["/".join(ops[:i] + [sw] + ops[i + 1:])] + w[6:]))
             elif f[0] == "g":
-                res.append(" ".join(w[:5] + ["/".join(ops[:i] + ["t", op] + ops[i + 1:])]))
+                res.append(" ".join(w[:5] + ["/".join(ops[:i] + ["t", op] + ops[i + 1:])] + w[6:]))
+                sid = f_sref(f[1])[0]
+                for lvl in (0, 10, 20, 31):
+                    res.append(" ".join(w[:5] + ["/".join(ops[:i] + ["g.%dl%d" % (sid, lvl)] + ops[i + 1:])] + w[6:]))
     elif w[0] == "TS":
         ops = [] if w[4] == "-" else w[4].split("/")
         for i in range(len(ops)):
@@ -1474,14 +1576,14 @@ def run(ctx):
 
     purelib.run_pure(
         ctx, "c19", gen_cases, monitors, neighbours, nontrivial,
-        rule="parseSearchQuery on every string of length <=5 (quick) / <=7 (thorough) over {a,b,space,tab,comma,quote,colon,e-acute} with login rewriting, a sample of them without, and seeded random queries of 1..6 terms (vocabulary of plain/prefixed/upper-case/non-ASCII/invalid terms and random runes of all UTF-8 widths, 30% quoted, 10% broken quotes, 8% glued, doubled commas, unicode white space around); rewriteTag on the vocabulary and random words; normalizeTags (once and twice) on random lists with case/space/duplicate/length/non-letter/null-marker variations under maxTagCount in {1,2,3,5,16}; restrictedTagsEqual / filterRestrictedTags / stringSliceDelta / the fnd masked-namespace gate on random old/new lists against namespace sets {}, {email}, {email,tel}, {basic,x_1}, {a}, each call with its argument slices compared before/after (F, R: untouched; D: same elements); stateful scenarios TS on real 'me' and group topics above memverif with globals.immutableTagNS in {basic}, {email,tel}, {basic,email}, {tel}, {x_1,basic}, {} and maxTagCount in {16,4,6,3}: 400 hand-shaped scenarios (one ordinary + one reserved tag in every relative order in the old and the new list; rejected attempt followed by a read, by an accepted update, by unload + reload; non-owner; store failure) and seeded random scenarios of 5..12 requests aimed at the holder's current tags (34% change ordinary tags only, 18% replace / 10% drop / 10% add a reserved tag, same set, null marker, duplicates, random; raw spellings with case and white space, shuffled / ascending / descending; 6% store failure; 15% non-owner), {get tags}, unload, server-side UpdateTags, {sub new set.tags}, {acc new tags} with an authenticator adding a reserved tag; after EVERY request the reply, the stored row and the loaded topic's tags of every holder are compared with the model and the laws are evaluated; SEARCH layer (handler c19f: validators email + tel and the basic authenticator configured with add_to_tags, country codes US / DE / none): rewriteTag (WR) on a vocabulary of plain / e-mail / national digit-only and dotted phone / +phone / login / reserved / junk terms x country x login rewriting plus random digit strings and words; parseSearchQuery (QR) on every ordered pair of one term of each of 10 kinds (plain, e-mail, digits-only phone, +phone, login, quoted, masked-own, masked-foreign, reserved, junk) joined by AND and by OR, and random 1..4-term queries; the vocabulary and a sample of the pairs again in two more driver processes where a rewriter is NOT configured to index (tel add_to_tags off; email and basic add_to_tags off: law rewritten-only-when-configured); whole searches (FS) on a real fnd topic above memverif whose FindUsers / FindTopics record their arguments: 60 sampled (quick) / all 180 hand-shaped scenarios (a masked own / foreign / quoted-foreign term next to a term of every kind, AND / OR / comma-space, first / second, as public or private query, ordinary or root session, topic tags empty then the user's) + the queries of the seeded demonstrations + seeded random scenarios of 2..5 query rounds ({set desc public|private|both}, {get sub} from the same / another / the root session, null marker, unload, topic tags assigned) against masked namespaces {org}, {org,dept}, {tel}, {email,tel}, {basic}, {} with 3..6 candidate accounts / topics (60% active, suspended, deleted) carrying the rewritten forms; after EVERY request the reply, the recorded store arguments, the topic's tags and the public / private queries it holds are compared with the model and the search laws are evaluated",
+        rule="parseSearchQuery on every string of length <=5 (quick) / <=7 (thorough) over {a,b,space,tab,comma,quote,colon,e-acute} with login rewriting, a sample of them without, and seeded random queries of 1..6 terms (vocabulary of plain/prefixed/upper-case/non-ASCII/invalid terms and random runes of all UTF-8 widths, 30% quoted, 10% broken quotes, 8% glued, doubled commas, unicode white space around); rewriteTag on the vocabulary and random words; normalizeTags (once and twice) on random lists with case/space/duplicate/length/non-letter/null-marker variations under maxTagCount in {1,2,3,5,16}; restrictedTagsEqual / filterRestrictedTags / stringSliceDelta / the fnd masked-namespace gate on random old/new lists against namespace sets {}, {email}, {email,tel}, {basic,x_1}, {a}, each call with its argument slices compared before/after (F, R: untouched; D: same elements); stateful scenarios TS on real 'me' and group topics above memverif with globals.immutableTagNS in {basic}, {email,tel}, {basic,email}, {tel}, {x_1,basic}, {} and maxTagCount in {16,4,6,3}: 400 hand-shaped scenarios (one ordinary + one reserved tag in every relative order in the old and the new list; rejected attempt followed by a read, by an accepted update, by unload + reload; non-owner; store failure) and seeded random scenarios of 5..12 requests aimed at the holder's current tags (34% change ordinary tags only, 18% replace / 10% drop / 10% add a reserved tag, same set, null marker, duplicates, random; raw spellings with case and white space, shuffled / ascending / descending; 6% store failure; 15% non-owner), {get tags}, unload, server-side UpdateTags, {sub new set.tags}, {acc new tags} with an authenticator adding a reserved tag; after EVERY request the reply, the stored row and the loaded topic's tags of every holder are compared with the model and the laws are evaluated; SEARCH layer (handler c19f: validators email + tel and the basic authenticator configured with add_to_tags, country codes US / DE / none): rewriteTag (WR) on a vocabulary of plain / e-mail / national digit-only and dotted phone / +phone / login / reserved / junk terms x country x login rewriting plus random digit strings and words; parseSearchQuery (QR) on every ordered pair of one term of each of 10 kinds (plain, e-mail, digits-only phone, +phone, login, quoted, masked-own, masked-foreign, reserved, junk) joined by AND and by OR, and random 1..4-term queries; the vocabulary and a sample of the pairs again in two more driver processes where a rewriter is NOT configured to index (tel add_to_tags off; email and basic add_to_tags off: law rewritten-only-when-configured); whole searches (FS) on a real fnd topic above memverif whose FindUsers / FindTopics record their arguments: 60 sampled (quick) / all 180 hand-shaped scenarios (a masked own / foreign / quoted-foreign term next to a term of every kind, AND / OR / comma-space, first / second, as public or private query, ordinary or root session, topic tags empty then the user's) + the queries of the seeded demonstrations + seeded random scenarios of 2..5 query rounds ({set desc public|private|both}, {get sub} from the same / another / the root session, null marker, unload, topic tags assigned) against masked namespaces {org}, {org,dept}, {tel}, {email,tel}, {basic}, {} with 3..6 candidate accounts / topics (60% active, suspended, deleted) carrying the rewritten forms; AUTH LEVELS: half of the random scenarios draw their sessions from ids 1..6 with sess.authLvl in {0 none, 10 anon, 20 auth, 30 root, junk -10 -1 1 5 15 19 21 25 29 31 40 100 1000} (fixed per session id, now and then re-assigned), a third of those as 'anon' scenarios in which the searching user is an account created by the real {acc user=new scheme=anonymous login=true} and every level-10 session gets its level from that reply / from a real {login scheme=token}; plus hand-shaped level scenarios: for each level (none, anon, auth, root, 4 (quick) / all 13 junk values) x public / private query, a query matching an active, a suspended and a soft-deleted account and an active, a suspended and a soft-deleted topic searched from a session of that level, from the root session, from a session of another level, from the same session after its level changed, and after unload; after EVERY request the reply, the recorded store arguments, the topic's tags and the public / private queries it holds are compared with the model and the search laws are evaluated",
         trusted=["harness/overlay/server/zz_verif_c19_test.go (calls parseSearchQuery, rewriteTag, normalizeTags, filterRestrictedTags, restrictedTagsEqual, stringSliceDelta of package main; installs one fake validator and one fake authenticator so that rewriting is deterministic; request G restates the two-line gate expression of topic.go:2434-2442)",
                  "harness/runner/r_c19.ml: UTF-8 <-> rune list conversion (Go range-loop decoding), unicode tables of the Go toolchain instantiate the Section variables lower/is_letter/is_digit/is_number; their hypotheses are checked on all 0x110000 code points by the driver request UH on every run",
                  "harness/overlay/server/zz_verif_c19x_test.go (scenario driver: real hub / topics / sessions / store mappers above memverif; sessions are attached on demand before a {set}/{get}; unload = {leave} of every session + the hub.unreg message of the idle timer; server-side tag change = store.Users.UpdateTags while the topic is not loaded; fake authenticator 'verifx' whose AddRecord appends the scenario's tags to rec.Tags as auth/basic does; the token authenticator is initialised with a fixed key; one failing adapter call injected through memverif.SetFault)",
                  "harness/overlay/server/db/memverif (store contract modelled from db/mysql/adapter.go: UserUpdate/TopicUpdate replace the row's tags and refuse duplicates, UserUpdateTags returns the tags ordered)",
                  "tools/props/c19.py: python restatement of QuerySpec.denote / well_formed and of the tag laws, evaluated on the implementation's answers",
                  "byte order of valid UTF-8 strings equals code point order (checked by UH); input strings are valid UTF-8",
-                 "harness/overlay/server/zz_verif_c19fnd_test.go (search driver: globals.validators = {email, tel: add_to_tags}, auth/basic initialised with add_to_tags, globals.maskedTagNS per scenario, sess.countryCode assigned directly; request O asks each validator's PreCheck and each authenticator's AsTag DIRECTLY - these answers instantiate the model's Section variables vals / auths in the runner (file VERIF_C19ORACLE) and the monitor's reference, so the libraries behind them (net/mail, nyaruka/phonenumbers, the login regexp) are oracles, not modelled; request t assigns Topic.tags of the loaded fnd topic from the user's row, which no client request does at HEAD (initTopicFnd leaves it empty) - it exercises the gate with own tags present; root session = a session of the same user with authLvl root)",
+                 "harness/overlay/server/zz_verif_c19fnd_test.go (search driver: globals.validators = {email, tel: add_to_tags}, auth/basic initialised with add_to_tags, globals.maskedTagNS per scenario, sess.countryCode assigned directly; request O asks each validator's PreCheck and each authenticator's AsTag DIRECTLY - these answers instantiate the model's Section variables vals / auths in the runner (file VERIF_C19ORACLE) and the monitor's reference, so the libraries behind them (net/mail, nyaruka/phonenumbers, the login regexp) are oracles, not modelled; request t assigns Topic.tags of the loaded fnd topic from the user's row, which no client request does at HEAD (initTopicFnd leaves it empty) - it exercises the gate with own tags present; a session of level L = a session object of the searching user with sess.authLvl := L assigned directly (root, none and the junk values have no login path in the drivers' configuration: LevelNone is what the proxied session of a cluster master carries), except the level-10 sessions of the 'anon' scenarios, whose level is assigned by the real replyCreateUser / onLogin / token login code with the anonymous and token authenticators initialised)",
                  "harness/overlay/server/db/memverif FindUsers / FindTopics (store contract modelled from db/mysql/adapter.go 2352-2533: a row matches when it has one of the tags and one of every non-empty required group; activeOnly keeps state = OK; the caller is skipped among users) and zz_find_c19.go (argument log); the SQL of the real adapters is not executed",
                  "candidate rows are at most 8 (below the adapter's result limit); result ORDER is not compared (sets of ids)",
                  "no plugin is configured (pluginFind returns the query unchanged); fnd.public / private are strings"],
